@@ -37,7 +37,7 @@ RULE = ('Hypothesis: CamxSpec restricted to the formats that have both '
         'TFLAG in length and values.  If both readers reject the file the case is outside '
         '"files that both reader families accept" (label both-reject).  '
         'Non-trivial: steps>1 and nz>1, or a day/year/century/leap '
-        'roll-over inside the file.  Distinct by sha1 of the case spec.' + '  Domain by construction: lateral_boundary nx, ny >= 2 (an edge needs its two corner cells), EMISSIONS nz = 1, AIRQUALITY one step, steps of whole hours (lateral_boundary 1 h), every instant incl. the last end time inside 1970-2069, species names not DATE/TFLAG/ETFLAG, a 3-variable cloud_rain file whose size is also a whole number of 5-variable steps is not generated (the format stores no variable count), old-style landuse with at most one optional field.')
+        'roll-over inside the file.  Distinct by sha1 of the case spec.' + '  Domain by construction: lateral_boundary nx, ny >= 2 (an edge needs its two corner cells), EMISSIONS nz = 1, AIRQUALITY one step, steps of whole hours (lateral_boundary 1 h), every instant incl. the last end time inside 1970-2069, species names not DATE/TFLAG/ETFLAG, a 3-variable cloud_rain file whose size is also a whole number of 5-variable steps is not generated (the format stores no variable count), old-style landuse with at most one optional field.' + '  Single-layer EMISSIONS files are also encoded with nz = 0 in the grid header; both readers must present LAY = 1.  Payload modes include whole files / 2-D fields of +-0 mixtures.')
 ASSUMPTIONS = ['a file accepted by vf.ref.camx_ref.decode is a valid CAMx '
                'file', 'two-digit years denote 1970-2069']
 BUDGET = {'quick': dict(examples=2400, max_s=200),
@@ -49,6 +49,11 @@ def cases(draw, tier='quick'):
     spec = draw(C.camxspecs(formats=FORMATS,
                             names=['AVERAGE', 'AVERAGE', 'EMISSIONS',
                                    'EMISSIONS', 'AIRQUALITY', 'INSTANT']))
+    if spec['fmt'] == 'uamiv' and spec['name'] == 'EMISSIONS' and \
+            spec['nz'] == 1 and draw(st.booleans()):
+        # 2-D emission files carry nz = 0 in the grid header; both readers
+        # must present one layer
+        spec['hdr_nz0'] = True
     if spec['fmt'] in SHAPE_FORMATS:
         # a share of opens uses the constructors' default arguments
         spec['shape'] = draw(st.sampled_from(['both', 'both', 'both', 'none',
@@ -159,6 +164,8 @@ def check_case(spec):
         r.label('step>1h')
     if fmt in SHAPE_FORMATS:
         r.label('shape:' + spec.get('shape', 'both'))
+    if spec.get('hdr_nz0'):
+        r.label('hdr-nz=0')
     r.nontrivial = bool((nt > 1 and spec['nz'] > 1) or ro)
     raw = C.ref_bytes(spec)
     try:
